@@ -171,6 +171,9 @@ type routingCase struct {
 	Req      h.Req      `json:"req"`
 	Serve    bool       `json:"serve_http"`
 	Filter   bool       `json:"filter"`
+	Tier     string     `json:"tier,omitempty"`
+	Lite     bool       `json:"lite,omitempty"`
+	ReqIndex int        `json:"req_index,omitempty"` // position of Req in the sweep's request list (history replay)
 	Observed rs.Outcome `json:"observed"`
 	Expected any        `json:"expected,omitempty"`
 	Other    any        `json:"other,omitempty"`
@@ -196,7 +199,21 @@ func replayRouting(oracle func(rc routingCase, o rs.Outcome) error) replayFn {
 		}
 		o := b.Do(rc.Req.HTTP(), h.NewRec(), rc.Serve)
 		fmt.Printf("table: %v\nrequest: %v\nobserved: %s\n", rc.Table, rc.Req, o.Key())
-		return oracle(rc, o)
+		if err := oracle(rc, o); err != nil || rc.Tier == "" {
+			return err
+		}
+		// not reproduced alone: replay the sweep's requests that preceded it on a fresh container
+		for _, sp := range routingSweeps(routerOf(rc.Router), rc.Tier, rc.Lite) {
+			if sp.Name == rc.Sweep && rc.ReqIndex < len(sp.Reqs) {
+				b := rs.Build(rc.Table, rs.BuildOpt{Router: routerOf(rc.Router), Filter: rc.Filter})
+				for k := 0; k <= rc.ReqIndex; k++ {
+					o = b.Do(sp.Reqs[k].HTTP(), h.NewRec(), rc.Serve)
+				}
+				fmt.Printf("after replaying the %d requests served before it on the same container: %s\n", rc.ReqIndex, o.Key())
+				return oracle(rc, o)
+			}
+		}
+		return nil
 	}
 }
 
